@@ -10,6 +10,7 @@ import (
 	"sort"
 	"sync"
 
+	"verif/checker/internal/an"
 	"verif/checker/internal/load"
 	"verif/checker/internal/pop"
 	"verif/checker/internal/rep"
@@ -52,6 +53,8 @@ type cache struct {
 	mt      *schemaInfo
 	schOnce sync.Once
 	schErr  error
+	graph   *an.Graph
+	gOnce   sync.Once
 }
 
 var caches sync.Map // *load.Program -> *cache
@@ -66,6 +69,17 @@ func (c *Ctx) Pop() (*pop.Population, error) {
 	k.popOnce.Do(func() { k.pop, k.popErr = pop.Build(c.P) })
 	return k.pop, k.popErr
 }
+
+// Graph is VTA + CHA edges for the reflection-fed interfaces of package tl.
+func (c *Ctx) Graph() *an.Graph {
+	k := c.cache()
+	k.gOnce.Do(func() { k.graph = an.NewGraph(c.P.VTA(), c.P.CHA(), load.TLPkg) })
+	return k.graph
+}
+
+// inRepo / inRepoOrDry are the descent filters for reachability.
+func (c *Ctx) inRepo(f *ssa.Function) bool      { return c.P.InRepo(f) }
+func (c *Ctx) inRepoOrDry(f *ssa.Function) bool { return c.P.InRepoOrDry(f) }
 
 type schemaInfo struct {
 	S       *tlschema.Schema
